@@ -51,9 +51,9 @@ SPECS += [
             "data-stoch": (f"iff({R(DST)} is not None, j >= w) and implies(j >= w, isnum({R(DST)}))", ["C06", "C09"]),
             "data-k": (f"iff({R(DK)} is not None, j >= wk) and implies(j >= wk, isnum({R(DK)}))", ["C06", "C09"]),
             "presence": (f"iff({R(ST)} is not None, j >= w) and iff({R(SK)} is not None, j >= wk) and iff({R(SD_)} is not None, j >= wd)", ["C06", "C09"]),
-            "stoch-formula": (f"implies(j >= w and {HHS} > {LLS}, Abs({NUM(ST)} - 100 * ({NUM('X')} - {LLS}) / ({HHS} - {LLS})) <= eps)", ["C06"], {"assume": False, "defer": True}),
+            "stoch-formula": (f"implies(j >= w and {HHS} > {LLS}, Abs({NUM(ST)} - 100 * ({NUM('X')} - {LLS}) / ({HHS} - {LLS})) <= eps)", ["C06"], {"assume": False}),
             "stoch-flat-window": (f"implies(j >= w and {HHS} == {LLS}, {NUM(ST)} == 0)", ["C06"], {"assume": False}),
-            "0<=stoch<=100": (f"implies(j >= w, 0 <= {NUM(ST)} and {NUM(ST)} <= 100 and 0 <= {NUM(DST)} and {NUM(DST)} <= 100)", ["C10"], {"defer": True}),
+            "0<=stoch<=100": (f"implies(j >= w, 0 <= {NUM(ST)} and {NUM(ST)} <= 100 and 0 <= {NUM(DST)} and {NUM(DST)} <= 100)", ["C10"]),
             "k-is-stored-k": (f"implies(j >= wk, Abs({NUM(SK)} - {NUM(DK)}) <= eps)", ["C06"]),
             "d-is-sma-of-k": (f"implies(j >= wd, Abs({NUM(SD_)} - {NUM('DN')}) <= eps)", ["C06"]),
         },
